@@ -36,7 +36,7 @@ func (p LLC) Type() string {
 }
 
 func (p LLC) Payload() []byte {
-	if p.Type() == "u" || len(p) < 4 { // a valid LLC header can be 3 bytes long
+	if t := p.Type(); t == "u" || t == "snap" || len(p) < 4 { // U format (incl. SNAP) has a one byte control field; a valid LLC header can be 3 bytes long
 		return p[3:]
 	}
 	return p[4:]
